@@ -229,17 +229,21 @@ def install_model_api_counters(ctx):
     o2 = Model.batch_evaluate_log_likelihood
 
     def evaluate_log_likelihood(self, x):
+        out = o1(self, x)
+        # counted when the evaluation has completed (nessai counts a batch after it returns; an
+        # evaluation interrupted by a signal was never recorded and is redone after the resume)
         ctx.api_points += int(np.size(x))
         ctx.api_calls += 1
-        return o1(self, x)
+        return out
 
     def batch_evaluate_log_likelihood(self, x, *a, **k):
-        ctx.api_points += int(np.size(x))
-        ctx.api_calls += 1
         if not SEAM.sampling_started:
             SEAM.sampling_started = True
             ctx.nb.note("sampling_started", via="batch")
-        return o2(self, x, *a, **k)
+        out = o2(self, x, *a, **k)
+        ctx.api_points += int(np.size(x))
+        ctx.api_calls += 1
+        return out
 
     Model.evaluate_log_likelihood = evaluate_log_likelihood
     Model.batch_evaluate_log_likelihood = batch_evaluate_log_likelihood
@@ -380,6 +384,9 @@ def run(world, inc, lab_dir, disk_dir, t0):
         tracer.enabled = False
         nb.note("constructed", resumed=ctx.resumed, iteration=int(fs.ns.iteration),
                 evals=int(model.likelihood_evaluations), finalised=bool(fs.ns.finalised))
+        if ctx.resumed and scn["sampler"] == "ns":
+            with ctx.guard():
+                ctx.on_restored(fs.ns)
         if ctx.resumed and scn["sampler"] == "ins":
             with ctx.guard():
                 ctx.on_restored(fs.ns)
